@@ -32,11 +32,12 @@ RUNS = {"quick": 24000, "thorough": 600000}
 OPTIMIZED_PASS = {"quick": 1200, "thorough": 16000}   # extra runs under PYTHONOPTIMIZE=1 (assert statements removed)
 RULE = ("lock part: seeded programs for up to 2 readers + 2 writers (1-3 rounds, 0-3 yields and optional stall inside the "
         "critical section) x seeded schedule (pre-emption steps + choice list); curve part: 2-3 thread programs over "
-        "shared fresh generator / shared Jacobian point on a toy prime-order curve, SECP112r1/128r1 or NIST256p x "
+        "shared fresh generator / shared Jacobian point on a toy prime-order curve, SECP112r1/128r1 or NIST256p, or shared "
+        "twisted-Edwards points on Ed25519; precompute() against verify() on a DER-parsed key (either sequential order) x "
         "seeded schedule or single-pre-emption sweep; non-trivial = at least one pre-emption or forced switch between "
         "unfinished threads happened; distinct = distinct event-log digests (lock-operation interleaving / decision "
         "sequence + results)")
-REAL = ["ecdsa._rwlock.RWLock/_LightSwitch (unmodified algorithm)", "ecdsa.ellipticcurve.PointJacobi / CurveFp",
+REAL = ["ecdsa._rwlock.RWLock/_LightSwitch (unmodified algorithm)", "ecdsa.ellipticcurve.PointJacobi / PointEdwards / CurveFp",
         "ecdsa.numbertheory", "ecdsa.keys / ecdh / plug-in ECC proxies (library-level programs on NIST256p)"]
 STUBS = ["threading.Lock -> SimLock (parks threads, raises on release of an unlocked lock)",
          "thread scheduling -> Sched (baton passing)", "clock -> virtual (sim.sleep)", "RNG -> per-thread seeded stream"]
